@@ -596,8 +596,34 @@ func (h *Hub) stopTopicsForUser(uid types.Uid, reason int, alldone chan<- bool) 
 	count := 0
 	h.topics.Range(func(name any, t any) bool {
 		topic := t.(*Topic)
-		if _, isMember := topic.perUser[uid]; (topic.cat != types.TopicCatGrp && isMember) ||
-			topic.owner == uid {
+		// This function runs in its own goroutine: Topic.perUser and Topic.cat belong to the topic's
+		// goroutine (and are being filled in while the topic is initialized) and must not be read here.
+		// Whose 'me', 'fnd' or P2P topic it is follows from the topic name.
+		if topic.isInactive() {
+			// Still being initialized (it may never start: nobody would answer the exit request),
+			// or already being stopped by someone else.
+			return true
+		}
+		tname := name.(string)
+		cat := topicCat(tname)
+		isMember := false
+		var p2pOther types.Uid
+		switch cat {
+		case types.TopicCatMe:
+			isMember = tname == uid.UserId()
+		case types.TopicCatFnd:
+			isMember = tname == uid.FndName()
+		case types.TopicCatP2P:
+			if uid1, uid2, err := types.ParseP2P(tname); err == nil {
+				if uid1 == uid {
+					isMember, p2pOther = true, uid2
+				} else if uid2 == uid {
+					isMember, p2pOther = true, uid1
+				}
+			}
+		}
+		isOwner := cat == types.TopicCatGrp && topic.owner == uid
+		if isMember || isOwner {
 			topic.markDeleted()
 			h.topics.Delete(name)
 
@@ -605,8 +631,8 @@ func (h *Hub) stopTopicsForUser(uid types.Uid, reason int, alldone chan<- bool) 
 			topic.exit <- &shutDown{reason: reason, done: done}
 
 			// Just send to p2p topics here.
-			if topic.cat == types.TopicCatP2P && len(topic.perUser) == 2 {
-				presSingleUserOfflineOffline(topic.p2pOtherUser(uid), uid.UserId(), "gone", nilPresParams, "")
+			if cat == types.TopicCatP2P {
+				presSingleUserOfflineOffline(p2pOther, uid.UserId(), "gone", nilPresParams, "")
 			}
 			count++
 		}
